@@ -382,7 +382,52 @@ theorem disableAllTrue_order_independent {V : Type} (l₁ l₂ : List (Key × V)
     (hn : nodupKeys l₁ = true) : (sortK l₁).head? = (sortK l₂).head? := by
   rw [sort_entries_order_independent l₁ l₂ h hn]
 
+/-- GENERAL (return the first match; matches agree): `for _, e := range m { if r := f(e); r != nil { return r } }`
+gives the same result in every order EXACTLY WHEN any two entries that match agree on the
+result - in particular when at most one entry matches (`Node.find`: fully qualified names
+are unique, so at most one subtree holds the node). -/
+theorem uniqueMatch_order_independent {α β : Type} (f : α → Option β) (l₁ l₂ : List α) (h : l₁.Perm l₂)
+    (hu : ∀ x ∈ l₁, ∀ y ∈ l₁, (f x).isSome → (f y).isSome → f x = f y) :
+    l₁.findSome? f = l₂.findSome? f := by
+  cases h1 : l₁.findSome? f with
+  | none =>
+    have hn := List.findSome?_eq_none_iff.mp h1
+    exact (List.findSome?_eq_none_iff.mpr fun x hx => hn x (h.mem_iff.mpr hx)).symm
+  | some v =>
+    obtain ⟨x, hx, hfx⟩ := List.exists_of_findSome?_eq_some h1
+    cases h2 : l₂.findSome? f with
+    | none =>
+      have := List.findSome?_eq_none_iff.mp h2 x (h.mem_iff.mp hx)
+      rw [hfx] at this; cases this
+    | some w =>
+      obtain ⟨y, hy, hfy⟩ := List.exists_of_findSome?_eq_some h2
+      have := hu x hx y (h.mem_iff.mpr hy) (by simp [hfx]) (by simp [hfy])
+      rw [hfx, hfy] at this; exact this
+
+/-- `getUnknownKeys` (core/fork.go, 4 loops): the keys of a run-time map collected in map
+order; every consumer sorts them (`expandForkFromObj`, `TopNode.getParts`) or uses only
+their number and membership (`checkSplitLength`, `mapKeyRange.Allow` / `Length`). -/
+theorem unknownKeys_order_independent (k₁ k₂ : List Key) (h : k₁.Perm k₂) :
+    sortKeys k₁ = sortKeys k₂ ∧ k₁.length = k₂.length ∧ ∀ x, k₁.contains x = k₂.contains x :=
+  ⟨sort_keys_order_independent k₁ k₂ h, h.length_eq, fun x => contains_perm h x⟩
+
+/-- `Fork.getStages` as the code is now (core/stage.go): the stages of the subnodes
+appended in sorted order of the subnode names (the `stages` list of `_perf`) -/
+theorem getStages_order_independent {V R : Type} (f : Key × V → List R) (l₁ l₂ : List (Key × V))
+    (h : l₁.Perm l₂) (hn : nodupKeys l₁ = true) : (sortK l₁).flatMap f = (sortK l₂).flatMap f :=
+  refFindRefs_order_independent f l₁ l₂ h hn
+
+/-- `Fork.verifyPipelineOutput` as the code is now: the message of the first invalid
+entry in sorted key order (the `_errors` text of a pipeline fork) -/
+theorem verifyPipelineOutput_order_independent {W E : Type} (conv : Key → W → Except E Bytes)
+    (l₁ l₂ : List (Key × W)) (h : l₁.Perm l₂) (hn : nodupKeys l₁ = true) :
+    (firstFailure conv l₁).2 = (firstFailure conv l₂).2 := by
+  rw [convertToExp_order_independent conv l₁ l₂ h hn]
+
 /-! Non-vacuity of round 2. -/
+example : [1, 2, 3].findSome? (fun n => if n = 2 then some (n * 10) else none) = some 20 := by decide
+/-- two matching entries that disagree: the first match does depend on the order -/
+example : [1, 2].findSome? (fun n => some n) ≠ [2, 1].findSome? (fun n => some n) := by decide
 private def tA : STree := .split [1] true (.leaf [[3]])
 private def tB : STree := .merge [1] (.split [1] true (.split [2] true .nil))
 example : STree.Reorder (.cons tA (.cons tB .nil)) (.cons tB (.cons tA .nil)) := .swap ..
